@@ -421,6 +421,9 @@ class Tr:
                 if ta == Z and tb == Z:
                     return "(pyceil_div %s %s)" % (a, b), Z
             raise Untranslatable("ceil of something other than int / int")
+        if fname == "bool" and len(args) == 1:
+            a, ta = self.expr(args[0], env)
+            return self.truth(a, ta), B
         if fname == "int" and len(args) == 1:
             a, ta = self.expr(args[0], env)
             if ta == Z:
@@ -704,10 +707,16 @@ def translate_kernel(repo, spec):
             raise Untranslatable("*args / **kwargs")
     if kind == "guard":
         body = [x for x in fn.body if not (isinstance(x, ast.Expr) and isinstance(x.value, ast.Constant) and isinstance(x.value.value, str))]
-        if len(body) != 1 or not isinstance(body[0], ast.If) or body[0].orelse or not body[0].body:
+        early = (len(body) >= 2 and isinstance(body[0], ast.If) and not body[0].orelse and len(body[0].body) == 1
+                 and isinstance(body[0].body[0], ast.Return) and body[0].body[0].value is None)
+        if early:                             # `if <test>: return` followed by the action
+            e, t = tr.expr(body[0].test, env)
+            e, t = "(negb %s)" % tr.truth(e, t), B
+        elif len(body) != 1 or not isinstance(body[0], ast.If) or body[0].orelse or not body[0].body:
             raise Untranslatable("%s is not of the form `if <test>: <body>`" % spec["func"])
-        e, t = tr.expr(body[0].test, env)
-        e, t = tr.truth(e, t), B
+        else:
+            e, t = tr.expr(body[0].test, env)
+            e, t = tr.truth(e, t), B
     elif kind == "range":
         loops = [n for n in ast.walk(fn) if isinstance(n, ast.For) and isinstance(n.target, ast.Name) and n.target.id == spec["loop_var"]]
         if len(loops) != 1:
